@@ -135,29 +135,43 @@ Proof. destruct sb as [[|] b]; simpl; intro H; unfold dec_sb; simpl; now rewrite
 Lemma dec_enc_op o : osb_ok o -> dec_op (enc_op o) = Some o.
 Proof. destruct o; simpl; intro H; try reflexivity; unfold dec_op; simpl; unfold with_sb; now rewrite dec_enc_sb. Qed.
 
-Definition enc_z (z : Z) : list nat := [if z <? 0 then 1%nat else 0%nat; Z.to_nat (Z.abs z)].
-Definition dec_z (s m : nat) : Z := if Nat.eqb s 1 then - Z.of_nat m else Z.of_nat m.
-Lemma dec_enc_z z : dec_z (if z <? 0 then 1%nat else 0%nat) (Z.to_nat (Z.abs z)) = z.
-Proof. unfold dec_z. destruct (z <? 0) eqn:E; simpl; rewrite Z2Nat.id by lia; lia. Qed.
+(* integers as sign + binary digits (least significant first): payloads stay small for 64-bit constants *)
+Fixpoint pos_bits (p : positive) : list nat :=
+  match p with xH => [1%nat] | xO q => 0%nat :: pos_bits q | xI q => 1%nat :: pos_bits q end.
+Fixpoint bits_z (l : list nat) : Z := match l with [] => 0 | b :: r => Z.of_nat b + 2 * bits_z r end.
+Definition enc_z (z : Z) : list nat :=
+  (if z <? 0 then 1%nat else 0%nat) :: match Z.abs z with Zpos p => pos_bits p | _ => [] end.
+Definition dec_z (l : list nat) : Z :=
+  match l with s :: m => if Nat.eqb s 1 then - bits_z m else bits_z m | [] => 0 end.
+Lemma bits_pos p : bits_z (pos_bits p) = Zpos p.
+Proof. induction p as [q IH|q IH|]; simpl pos_bits; cbn [bits_z]; try rewrite IH; try reflexivity; lia. Qed.
+Lemma dec_enc_z z : dec_z (enc_z z) = z.
+Proof.
+  unfold dec_z, enc_z. destruct z as [|p|p]; simpl Z.abs; cbn [Z.ltb Z.compare]; cbn [Nat.eqb]; try rewrite bits_pos; reflexivity.
+Qed.
 Definition enc_const (c : sval) : list nat :=
   match c with
   | VZ z => 0%nat :: enc_z z
   | VB b => [1%nat; if b then 1%nat else 0%nat]
-  | VQ (n, d) => 2%nat :: enc_z n ++ enc_z d
+  | VQ (n, d) => 2%nat :: length (enc_z n) :: enc_z n ++ enc_z d
   end.
 Definition dec_const (l : list nat) : option sval :=
   match l with
-  | [0%nat; s; m] => Some (VZ (dec_z s m))
+  | 0%nat :: m => Some (VZ (dec_z m))
   | [1%nat; b] => Some (VB (Nat.eqb b 1))
-  | [2%nat; s; m; s'; m'] => Some (VQ (dec_z s m, dec_z s' m'))
+  | 2%nat :: k :: m => Some (VQ (dec_z (firstn k m), dec_z (skipn k m)))
   | _ => None
   end.
+Lemma firstn_length_app' {A} (l m : list A) : firstn (length l) (l ++ m) = l.
+Proof. induction l; simpl; [reflexivity | now rewrite IHl]. Qed.
+Lemma skipn_length_app' {A} (l m : list A) : skipn (length l) (l ++ m) = m.
+Proof. induction l; simpl; [reflexivity | exact IHl]. Qed.
 Lemma dec_enc_const c : dec_const (enc_const c) = Some c.
 Proof.
-  destruct c as [z|b|[n d]]; simpl.
+  destruct c as [z|b|[n d]]; cbn [enc_const dec_const].
   - now rewrite dec_enc_z.
   - now destruct b.
-  - now rewrite !dec_enc_z.
+  - now rewrite firstn_length_app', skipn_length_app', !dec_enc_z.
 Qed.
 
 (* ================================================================ tensor-level ONNX semantics of the nodes *)
